@@ -443,3 +443,359 @@ pub fn mutate(r: &mut Rng, seed: &[u8], shape: Shape, key: &str, others: &[Vec<u
     }
     (d, first)
 }
+
+// ------------------------------------------------------------------------------------------
+// line-level (structured) mutation of packet-line streams: ref advertisements and fetch responses
+// stay well-framed and mostly well-formed, what changes is WHICH lines there are — duplicate,
+// re-ordered, missing, renamed ref lines, peeled lines without their tag, duplicate / dangling
+// `symref=` capabilities, extra shallow lines, duplicate attributes of `ls-refs` lines.
+
+#[derive(Clone, Debug, PartialEq, Eq)]
+pub enum Pkt {
+    Data(Vec<u8>),
+    /// `0000`, `0001`, `0002`
+    Ctl([u8; 4]),
+}
+
+pub fn pkt_split(d: &[u8]) -> Option<Vec<Pkt>> {
+    let mut out = Vec::new();
+    let mut i = 0;
+    while i < d.len() {
+        if i + 4 > d.len() {
+            return None;
+        }
+        let n = usize::from_str_radix(std::str::from_utf8(&d[i..i + 4]).ok()?, 16).ok()?;
+        if n < 4 {
+            out.push(Pkt::Ctl([d[i], d[i + 1], d[i + 2], d[i + 3]]));
+            i += 4;
+        } else {
+            if i + n > d.len() {
+                return None;
+            }
+            out.push(Pkt::Data(d[i + 4..i + n].to_vec()));
+            i += n;
+        }
+    }
+    Some(out)
+}
+
+pub fn pkt_join(ps: &[Pkt]) -> Vec<u8> {
+    let mut out = Vec::new();
+    for p in ps {
+        match p {
+            Pkt::Ctl(c) => out.extend_from_slice(c),
+            Pkt::Data(d) => {
+                let d = &d[..d.len().min(65516)];
+                out.extend_from_slice(format!("{:04x}", d.len() + 4).as_bytes());
+                out.extend_from_slice(d);
+            }
+        }
+    }
+    out
+}
+
+/// `(oid-or-first-token, name, rest-after-name incl. the separator)` of a ref line
+/// (`<oid> <name>[\0caps | SP attrs][\n]`)
+fn ref_parts(l: &[u8]) -> Option<(Vec<u8>, Vec<u8>, Vec<u8>)> {
+    let sp = l.iter().position(|b| *b == b' ')?;
+    let rest = &l[sp + 1..];
+    let end = rest.iter().position(|b| *b == 0 || *b == b' ' || *b == b'\n').unwrap_or(rest.len());
+    Some((l[..sp].to_vec(), rest[..end].to_vec(), rest[end..].to_vec()))
+}
+
+fn strip_caps(l: &[u8]) -> Vec<u8> {
+    match l.iter().position(|b| *b == 0) {
+        Some(p) => {
+            let mut o = l[..p].to_vec();
+            o.push(b'\n');
+            o
+        }
+        None => l.to_vec(),
+    }
+}
+
+fn data_indices(ps: &[Pkt]) -> Vec<usize> {
+    ps.iter().enumerate().filter(|(_, p)| matches!(p, Pkt::Data(_))).map(|(i, _)| i).collect()
+}
+
+const SOME_OID: &[u8] = b"1111111111111111111111111111111111111111";
+
+/// add / change capabilities of the first line of a V0/V1 advertisement
+fn caps_edit(r: &mut Rng, ps: &mut [Pkt], names: &[Vec<u8>]) -> bool {
+    let Some(Pkt::Data(first)) = ps.iter_mut().find(|p| matches!(p, Pkt::Data(d) if d.contains(&0))) else {
+        return false;
+    };
+    let nul = first.iter().position(|b| *b == 0).expect("checked");
+    let nl = first.last() == Some(&b'\n');
+    let body_end = if nl { first.len() - 1 } else { first.len() };
+    let mut caps: Vec<Vec<u8>> = first[nul + 1..body_end].split(|b| *b == b' ').map(<[u8]>::to_vec).collect();
+    let pick_name = |r: &mut Rng| -> Vec<u8> {
+        if names.is_empty() || r.chance(1, 5) {
+            r.pick(&[&b"refs/heads/absent"[..], b"HEAD", b"", b"refs/heads/main", b"x"]).to_vec()
+        } else {
+            names[r.usize(names.len())].clone()
+        }
+    };
+    match r.below(7) {
+        0 => {
+            // a symref for some advertised (or absent) ref
+            let mut c = b"symref=".to_vec();
+            c.extend_from_slice(&pick_name(r));
+            c.push(b':');
+            c.extend_from_slice(&pick_name(r));
+            let at = r.usize(caps.len() + 1);
+            caps.insert(at, c);
+        }
+        1 => {
+            // duplicate a capability (the symref one if there is any)
+            let i = caps.iter().position(|c| c.starts_with(b"symref=")).filter(|_| r.chance(2, 3)).unwrap_or_else(|| r.usize(caps.len().max(1)));
+            if let Some(c) = caps.get(i).cloned() {
+                caps.push(c);
+            }
+        }
+        2 => {
+            // retarget / break the symref
+            if let Some(c) = caps.iter_mut().find(|c| c.starts_with(b"symref=")) {
+                *c = r
+                    .pick(&[&b"symref=HEAD:(null)"[..], b"symref=HEAD:", b"symref=:refs/heads/main", b"symref=HEAD", b"symref=", b"symref=HEAD:HEAD", b"symref=a:b:c"])
+                    .to_vec();
+            }
+        }
+        3 => caps.retain(|c| !c.starts_with(b"symref=")),
+        4 => {
+            // one symref per advertised name
+            for n in names.iter().take(6) {
+                let mut c = b"symref=".to_vec();
+                c.extend_from_slice(n);
+                c.extend_from_slice(b":refs/heads/main");
+                caps.push(c);
+            }
+        }
+        5 => {
+            if !caps.is_empty() {
+                let i = r.usize(caps.len());
+                caps.remove(i);
+            }
+        }
+        _ => caps.clear(),
+    }
+    let mut out = first[..=nul].to_vec();
+    out.extend_from_slice(&caps.join(&b' '));
+    if nl {
+        out.push(b'\n');
+    }
+    *first = out;
+    true
+}
+
+/// one structured step; `false` when it did not apply
+fn lines_step(r: &mut Rng, ps: &mut Vec<Pkt>) -> bool {
+    let idx = data_indices(ps);
+    if idx.is_empty() {
+        return false;
+    }
+    let names: Vec<Vec<u8>> = idx
+        .iter()
+        .filter_map(|i| match &ps[*i] {
+            Pkt::Data(d) => ref_parts(d).map(|p| p.1),
+            _ => None,
+        })
+        .collect();
+    let i = idx[r.usize(idx.len())];
+    let Pkt::Data(line) = ps[i].clone() else { return false };
+    match r.below(12) {
+        0 | 1 => {
+            // re-advertise a line: right behind itself or anywhere later (with or without the capabilities)
+            let copy = if r.chance(2, 3) { strip_caps(&line) } else { line.clone() };
+            let at = if r.chance(1, 2) { i + 1 } else { i + 1 + r.usize(ps.len() - i) };
+            ps.insert(at.min(ps.len()), Pkt::Data(copy));
+            true
+        }
+        2 => {
+            // the same name again with another object id
+            if let Some((_, name, _)) = ref_parts(&line) {
+                let mut l = SOME_OID.to_vec();
+                l.push(b' ');
+                l.extend_from_slice(&name);
+                l.push(b'\n');
+                let at = i + 1 + r.usize(ps.len() - i);
+                ps.insert(at.min(ps.len()), Pkt::Data(l));
+                true
+            } else {
+                false
+            }
+        }
+        3 => {
+            let j = idx[r.usize(idx.len())];
+            ps.swap(i, j);
+            true
+        }
+        4 => {
+            ps.remove(i);
+            true
+        }
+        5 => {
+            // rename: this line gets the name of another one
+            let (Some((oid, _, rest)), false) = (ref_parts(&line), names.is_empty()) else { return false };
+            let mut l = oid;
+            l.push(b' ');
+            l.extend_from_slice(&names[r.usize(names.len())]);
+            l.extend_from_slice(&rest);
+            ps[i] = Pkt::Data(l);
+            true
+        }
+        6 => {
+            // a peeled line without (or far from) its tag
+            let name = if names.is_empty() { b"refs/tags/x".to_vec() } else { names[r.usize(names.len())].clone() };
+            let mut l = SOME_OID.to_vec();
+            l.push(b' ');
+            l.extend_from_slice(&name);
+            l.extend_from_slice(b"^{}\n");
+            let at = r.usize(ps.len() + 1);
+            ps.insert(at, Pkt::Data(l));
+            true
+        }
+        7 => caps_edit(r, ps, &names),
+        8 => {
+            // shallow / unshallow / ack lines in the middle of everything
+            let l: &[u8] = *r.pick::<&[u8]>(&[
+                &b"shallow 1111111111111111111111111111111111111111\n"[..],
+                b"unshallow 1111111111111111111111111111111111111111\n",
+                b"shallow \n",
+                b"ACK 1111111111111111111111111111111111111111 common\n",
+                b"ACK 1111111111111111111111111111111111111111 ready\n",
+                b"ACK 1111111111111111111111111111111111111111\n",
+                b"NAK\n",
+                b"ready\n",
+                b"acknowledgments\n",
+                b"shallow-info\n",
+                b"wanted-refs\n",
+                b"packfile\n",
+                b"1111111111111111111111111111111111111111 refs/heads/wanted\n",
+                b"ERR boom\n",
+            ]);
+            let at = r.usize(ps.len() + 1);
+            ps.insert(at, Pkt::Data(l.to_vec()));
+            true
+        }
+        9 => {
+            // attributes of `ls-refs` lines: duplicates, both kinds, empty values, unborn
+            let mut l = line.clone();
+            let nl = l.last() == Some(&b'\n');
+            if nl {
+                l.pop();
+            }
+            l.extend_from_slice(*r.pick::<&[u8]>(&[
+                &b" peeled:1111111111111111111111111111111111111111"[..],
+                b" symref-target:refs/heads/main",
+                b" symref-target:(null)",
+                b" symref-target:",
+                b" peeled:",
+                b" peeled:1111111111111111111111111111111111111111 peeled:1111111111111111111111111111111111111111",
+                b" symref-target:a symref-target:b",
+                b" unknown:x",
+                b" ",
+            ]));
+            if nl {
+                l.push(b'\n');
+            }
+            ps[i] = Pkt::Data(l);
+            true
+        }
+        10 => {
+            // `unborn` / all-zero / capabilities^{} object names
+            if let Some((_, name, rest)) = ref_parts(&line) {
+                let mut l = r.pick(&[&b"unborn"[..], b"0000000000000000000000000000000000000000", b"shallow", b"", b"111"]).to_vec();
+                l.push(b' ');
+                l.extend_from_slice(if r.chance(1, 4) { b"capabilities^{}" } else { &name });
+                l.extend_from_slice(&rest);
+                ps[i] = Pkt::Data(l);
+                true
+            } else {
+                false
+            }
+        }
+        _ => {
+            // a control packet between the lines, or the final flush gone
+            if r.chance(1, 2) {
+                let at = r.usize(ps.len() + 1);
+                ps.insert(at, Pkt::Ctl(*r.pick(&[*b"0000", *b"0001", *b"0002"])));
+            } else if matches!(ps.last(), Some(Pkt::Ctl(_))) {
+                ps.pop();
+            }
+            true
+        }
+    }
+}
+
+/// 1..=3 structured steps on a well-framed stream; `None` if the seed is not one
+pub fn mutate_lines(r: &mut Rng, seed: &[u8]) -> Option<Vec<u8>> {
+    let mut ps = pkt_split(seed)?;
+    let steps = 1 + r.usize(3);
+    let mut applied = 0;
+    for _ in 0..steps * 3 {
+        if lines_step(r, &mut ps) {
+            applied += 1;
+            if applied == steps {
+                break;
+            }
+        }
+    }
+    (applied > 0).then(|| pkt_join(&ps))
+}
+
+/// deterministic structured corpus of an advertisement: every line re-advertised (adjacent and at
+/// the end, with and without a `symref=` capability naming it), every line removed, every adjacent
+/// pair swapped, a peeled line in front of every line
+pub fn directed_lines(seed: &[u8]) -> Vec<Vec<u8>> {
+    let mut out = Vec::new();
+    let Some(ps) = pkt_split(seed) else { return out };
+    let idx = data_indices(&ps);
+    if idx.len() > 40 {
+        return out;
+    }
+    let with_symref = |ps: &[Pkt], name: &[u8]| -> Vec<Pkt> {
+        let mut ps = ps.to_vec();
+        if let Some(Pkt::Data(first)) = ps.iter_mut().find(|p| matches!(p, Pkt::Data(d) if d.contains(&0))) {
+            let nl = first.last() == Some(&b'\n');
+            if nl {
+                first.pop();
+            }
+            first.extend_from_slice(b" symref=");
+            first.extend_from_slice(name);
+            first.extend_from_slice(b":refs/heads/main");
+            if nl {
+                first.push(b'\n');
+            }
+        }
+        ps
+    };
+    for &i in &idx {
+        let Pkt::Data(line) = &ps[i] else { continue };
+        let copy = Pkt::Data(strip_caps(line));
+        let name = ref_parts(line).map(|p| p.1).unwrap_or_default();
+        for at in [i + 1, idx.last().map_or(ps.len(), |l| l + 1)] {
+            let mut a = ps.clone();
+            a.insert(at.min(a.len()), copy.clone());
+            out.push(pkt_join(&with_symref(&a, &name)));
+            out.push(pkt_join(&a));
+        }
+        let mut a = ps.clone();
+        a.remove(i);
+        out.push(pkt_join(&a));
+        out.push(pkt_join(&with_symref(&a, &name)));
+        let mut a = ps.clone();
+        let mut peeled = SOME_OID.to_vec();
+        peeled.push(b' ');
+        peeled.extend_from_slice(&name);
+        peeled.extend_from_slice(b"^{}\n");
+        a.insert(i, Pkt::Data(peeled));
+        out.push(pkt_join(&a));
+    }
+    for w in idx.windows(2) {
+        let mut a = ps.clone();
+        a.swap(w[0], w[1]);
+        out.push(pkt_join(&a));
+    }
+    out
+}
